@@ -143,3 +143,27 @@ func (c *Check) variantsObligations() {
 		}
 	}
 }
+
+// archObligation re-runs the property's rules on the GOARCH=386 build configuration
+// (build-tagged files, 32-bit int) in a fresh process.
+func (c *Check) archObligation() {
+	self, err := os.Executable()
+	if err != nil {
+		c.Undecided("selftest", "goarch-386", "the rules hold on the 32-bit build configuration", err.Error())
+		return
+	}
+	tmp, err := os.MkdirTemp("", "mixvet-386-")
+	if err != nil {
+		c.Undecided("selftest", "goarch-386", "the rules hold on the 32-bit build configuration", err.Error())
+		return
+	}
+	defer os.RemoveAll(tmp)
+	cmd := exec.Command(self, "check", c.ID, "--tier", "quick")
+	cmd.Env = append(os.Environ(), "MIXVET_GOARCH=386", "MIXVET_EVIDENCE="+tmp)
+	out, err := cmd.CombinedOutput()
+	if err != nil {
+		c.Undecided("selftest", "goarch-386", "the rules hold on the 32-bit build configuration", "second load failed or reported violations: "+firstLines(string(out), 8))
+		return
+	}
+	c.OK("selftest", "goarch-386", "the same rules hold on the GOARCH=386 build configuration (second load in a fresh process)")
+}
